@@ -64,6 +64,60 @@ Fixpoint left_comb {A} (acc : mtree A) (parts : list (list A)) : mtree A :=
   | p :: ps => left_comb (MNode acc (MLeaf p)) ps
   end.
 
+(* Sessions on summary OBJECTS that are reused by several folds: a pool of slots, each holding one summary object (and,
+   as a ghost, the data it should describe).  New empty summaries and copies are appended to the pool; a merge or an
+   update changes the receiver's slot only -- mergeStats / merge copy field VALUES out of the other summary, copy() is
+   a deep copy, so no two slots ever share state.  The result is the pool after every step. *)
+Inductive oop (D : Type) : Type :=
+| ONew                    (* a fresh empty summary *)
+| OCopy (i : nat)         (* a copy of slot i *)
+| OMerge (i j : nat)      (* slot i . merge(slot j); i = j is the self-merge *)
+| OFold (i : nat) (v : D). (* slot i . add(v) *)
+Arguments ONew {D}.
+Arguments OCopy {D} i.
+Arguments OMerge {D} i j.
+Arguments OFold {D} i v.
+
+Fixpoint set_nth {A} (l : list A) (i : nat) (x : A) : list A :=
+  match l, i with
+  | [], _ => []
+  | _ :: r, O => x :: r
+  | y :: r, S i' => y :: set_nth r i' x
+  end.
+
+Definition ostep {T D} (empty : T) (comb : T -> T -> T) (add : T -> D -> T)
+           (slots : list (T * list D)) (op : oop D) : option (list (T * list D)) :=
+  match op with
+  | ONew => Some (slots ++ [(empty, [])])
+  | OCopy i => match nth_error slots i with Some s => Some (slots ++ [s]) | None => None end
+  | OMerge i j =>
+      match nth_error slots i, nth_error slots j with
+      | Some (a, da), Some (b, db) => Some (set_nth slots i (comb a b, da ++ db))
+      | _, _ => None
+      end
+  | OFold i v =>
+      match nth_error slots i with
+      | Some (a, da) => Some (set_nth slots i (add a v, da ++ [v]))
+      | None => None
+      end
+  end.
+
+(* the pool after every step, first step first *)
+Fixpoint osession {T D} (empty : T) (comb : T -> T -> T) (add : T -> D -> T)
+         (slots : list (T * list D)) (prog : list (oop D)) : option (list (list (T * list D))) :=
+  match prog with
+  | [] => Some []
+  | op :: p =>
+      match ostep empty comb add slots op with
+      | Some slots' =>
+          match osession empty comb add slots' p with
+          | Some tr => Some (slots' :: tr)
+          | None => None
+          end
+      | None => None
+      end
+  end.
+
 Section Stats.
 Context {N : NumOps} {S : SqrtOps N}.
 
@@ -147,6 +201,10 @@ Fixpoint session (ninf pinf : F) (rdds : list (list (list F))) (prog : list sop)
       end
   end.
 
+(* object sessions on StatCounter objects: slot k starts as StatCounter(parts[k]) *)
+Definition sc_osession (ninf pinf : F) (parts : list (list F)) (prog : list (oop F)) :=
+  osession (sc_empty ninf pinf) sc_comb sc_add (map (fun p => (sc_of_list ninf pinf p, p)) parts) prog.
+
 (* accessors; [None] is the NaN that variance()/sampleVariance() return for n = 0 / n <= 1 *)
 Definition st_count (s : sc) : Z := sc_n s.
 Definition st_mean (s : sc) : F := sc_mu s.
@@ -190,6 +248,11 @@ Fixpoint tree_cov (t : mtree (F * F)) : cc :=
   | MSelf t' => let c := tree_cov t' in cc_comb c c
   end.
 
+(* object sessions on CovarianceCounter objects (merge has no empty-receiver branch and no self test; c.merge(c) is
+   cc_comb c c, see above) *)
+Definition cc_osession (parts : list (list (F * F))) (prog : list (oop (F * F))) :=
+  osession cc_empty cc_comb cc_step (map (fun p => (cc_of_list p, p)) parts) prog.
+
 (* [None] is Python's None *)
 Definition cv_samp (c : cc) : option F := cc_covar_samp (cc_n c) (cc_ck c).
 Definition cv_pop (c : cc) : option F := cc_covar_pop (cc_n c) (cc_ck c).
@@ -225,6 +288,11 @@ Definition sc_view (s : @sc FloatOps) : val :=
         VInt (st_count s); VFloat (st_mean s); VFloat (st_sum s); VFloat (st_min s); VFloat (st_max s);
         VFloat (nan_or (st_variance s)); py_stdev (st_variance s);
         VFloat (nan_or (st_sampleVariance s)); py_stdev (st_sampleVariance s)].
+
+Definition sc_fields_view (s : @sc FloatOps) : val :=
+  VTup [VInt (sc_n s); VFloat (sc_mu s); VFloat (sc_m2 s); VFloat (sc_max s); VFloat (sc_min s)].
+Definition cc_fields_view (c : @cc FloatOps) : val :=
+  VTup [VInt (cc_n c); VFloat (cc_xavg c); VFloat (cc_yavg c); VFloat (cc_ck c); VFloat (cc_mkx c); VFloat (cc_mky c)].
 
 (* of a CovarianceCounter: the six fields, covar_samp, covar_pop, pearson_correlation *)
 Definition cc_view (c : @cc FloatOps) : val :=
